@@ -11,7 +11,7 @@ import numpy as np
 
 from harness import common, refmetrics
 
-COQ_FILES = ["proofs/C09Proofs.v"]
+COQ_FILES = ["proofs/C09Proofs.v", "model/Lattice.v", "proofs/LatticeProofs.v"]
 SENTINELS = {"pynndescent/pynndescent_.py": ["NNDescent.neighbor_graph"], "pynndescent/distances.py": ["squared_euclidean", "alternative_cosine", "alternative_dot", "alternative_hellinger",
                                           "alternative_jaccard", "correct_alternative_cosine", "correct_alternative_hellinger",
                                           "correct_alternative_jaccard", "true_angular_from_alt_cosine", "cosine", "dot", "hellinger",
@@ -323,6 +323,8 @@ def run(ctx):
     ctx.sentinels_changed = changed
     ctx.notes["sentinels"] = cur
     ctx.build(COQ_FILES)
+    from harness import lattice
+    lattice.angular_stream(ctx, ctx.budget(500, 5000), "surrogates")
     pairs(ctx, ctx.budget(14, 40))
     sweep(ctx, 0 if ctx.thorough else (8 if changed else 10))
     index_readout(ctx, ctx.budget(7, 28))
